@@ -165,7 +165,7 @@ Qed.
 Theorem expand_env_line : forall W ws,
   Forall word_in ws -> expand_env W (map word_text ws) = map (word_den W) ws.
 Proof.
-  intros W ws H. unfold expand_env. rewrite map_map.
+  intros W ws H. rewrite expand_env_map. rewrite map_map.
   induction H as [|w ws Hw _ IH]; [reflexivity|].
   cbn [map]. rewrite (expand_env_word W w Hw), IH. reflexivity.
 Qed.
